@@ -47,11 +47,15 @@ static void q_add1(struct node* chunk) { q_add2(chunk, chunk); }  /* :168 */
 #define Q_add_global(q, ...) XV_PICK2(__VA_ARGS__, q_add2, q_add1)(__VA_ARGS__)
 
 /* delete_self(): count, check the stamp against the tail stamps read so far, then poison the node */
-_Bool del_bad_stamp;
+/* freed or never-initialised memory: every such pointer leads to the poison node (next/next_chunk point to itself, arbitrary stamp);
+ * deleting it or finding it in a list is a violation.  (Arbitrary integers cast to pointers would say the same but make symbolic execution explode.) */
+struct node poison; _Bool del_bad_stamp, del_poison;
+static struct node* junk(void) { return nondet_bool() ? &poison : 0; }
 static void n_delete_self(struct node* n) {
+  if (n == &poison) { del_poison = 1; return; }
   if (!(q_tail_reads >= 1 && n->stamp <= q_tail_max)) del_bad_stamp = 1;
   n->deleted++;
-  n->next = (struct node*)nondet_uptr(); n->next_chunk = (struct node*)nondet_uptr(); n->stamp = nondet_size();
+  n->next = &poison; n->next_chunk = &poison; n->stamp = nondet_size();
 }
 #define N_delete_self(x) n_delete_self(&(x))
 
@@ -109,7 +113,7 @@ void xv_env(void) { if (mon_p) *mon_p = nondet_uptr(); }      /* other threads s
 static _Bool j_conserved(struct node* head, struct node* last); static _Bool td_list_empty(void);
 static void havoc_heap(void); static struct node* build_chain(void); static void pick_j(void);
 extern unsigned g_n[3]; extern _Bool restart_seen;
-#define XV_INV_RESTART (cur_chunk != 0 && j_conserved(cur_chunk, 0) && q_tail_reads >= 1 && tail_stamp <= q_tail_max && !del_bad_stamp \
+#define XV_INV_RESTART (cur_chunk != 0 && j_conserved(cur_chunk, 0) && q_tail_reads >= 1 && tail_stamp <= q_tail_max && !del_bad_stamp && !del_poison \
                         && q_add_n == 0 && !q_add_bad && td_list_empty() && q_steal_n == 1)
 #define XV_RESTART_ENTRY() do { if (!restart_seen) { restart_seen = 1; \
     __CPROVER_assert(XV_INV_RESTART, "LOOPBASE:RESTART"); \
@@ -129,15 +133,16 @@ struct node pool[NN];
 static void reset_ghost(void) {
   xv_clock = 1; xv_threw = 0;
   q_push_n = q_remove_n = q_acq_n = q_head_reads = q_tail_reads = q_steal_n = q_add_n = 0; q_tail_max = 0; q_add_bad = 0; q_add_first = q_add_last = 0;
-  q_push_block = q_remove_block = 0; q_push_re = q_remove_re = 0; q_push_clk = 0; q_global_head = 0; del_bad_stamp = 0;
+  q_push_block = q_remove_block = 0; q_push_re = q_remove_re = 0; q_push_clk = 0; q_global_head = 0; del_bad_stamp = 0; del_poison = 0;
+  poison.next = &poison; poison.next_chunk = &poison; poison.stamp = nondet_size(); poison.deleted = 0;
   st_local_n = st_global_n = 0; td_enter_n = td_leave_n = td_add_n = 0; td_leave_bad = 0; td_enter_clk = 0; td_add_node = 0;
   ld_n = 0; ld_re = 0; ld_clk = 0; ld_val = 0; mon_p = 0;
   in_was_last = nondet_bool(); in_local_left = nondet_size(); in_local_first = nondet_bool() ? &pool[0] : 0;
 }
 static void havoc_td(void) {
   xv_td.control_block = nondet_uptr(); xv_td.region_entries = nondet_uint(); xv_td.number_of_retired_nodes = nondet_size();
-  xv_td.first_retired_node = (struct node*)nondet_uptr(); xv_td.prev_retired_node = (struct node**)nondet_uptr();
-  for (int i = 0; i < NN; ++i) { pool[i].next = (struct node*)nondet_uptr(); pool[i].next_chunk = (struct node*)nondet_uptr(); pool[i].stamp = nondet_size(); pool[i].deleted = 0; }
+  xv_td.first_retired_node = nondet_bool() ? &pool[NN - 1] : junk(); xv_td.prev_retired_node = nondet_bool() ? &pool[NN - 1].next : &xv_td.first_retired_node;
+  for (int i = 0; i < NN; ++i) { pool[i].next = junk(); pool[i].next_chunk = junk(); pool[i].stamp = nondet_size(); pool[i].deleted = 0; }
   reset_ghost();
 }
 
@@ -219,9 +224,10 @@ void h_add_retired(void) {
 #define LL 3
 #endif
 unsigned in_len; unsigned in_j;
+_Bool reach_poison;
 static unsigned reach_list(struct node* first, struct node* target, unsigned bound) {
   unsigned c = 0; struct node* n = first;
-  for (unsigned i = 0; i < bound && n != 0; ++i) { if (n == target) c++; n = n->next; }
+  for (unsigned i = 0; i < bound && n != 0; ++i) { if (n == &poison) { reach_poison = 1; break; } if (n == target) c++; n = n->next; }
   return c;
 }
 void h_local(void) {
@@ -235,7 +241,8 @@ void h_local(void) {
   sg_process_local_nodes(&xv_td);
   unsigned ndel = 0; for (unsigned i = 0; i < NN; ++i) ndel += pool[i].deleted;
   unsigned r = reach_list(xv_td.first_retired_node, &pool[in_j], LL + 1);
-  XV_OBL("stamp.free.below_tail", !del_bad_stamp && q_tail_reads == 1);
+  XV_OBL("stamp.free.below_tail", !del_bad_stamp && !del_poison && q_tail_reads == 1);
+  XV_OBL("stamp.conserve", !reach_poison);                                        /* no freed node is left in the list */
   if (in_j < in_len) {
     XV_OBL("stamp.conserve", pool[in_j].deleted + r == 1);                       /* deleted once or kept once */
     if (pool[in_j].deleted) XV_OBL("stamp.free.below_tail", j0.stamp <= q_tail_max);
@@ -276,6 +283,7 @@ static unsigned chain_reach(struct node* head, struct node* last, struct node* t
   unsigned r = 0; struct node* c = head; walk_ok = 1; walk_chunks = 0;
   for (unsigned k = 0; k < 3 && c != 0; ++k) {
     walk_chunks++;
+    if (c == &poison || c->next == &poison) { walk_ok = 0; break; }
     if (c == target) r++;
     if (c->next != 0) { if (c->next == target) r++; if (c->next->next != 0) walk_ok = 0; }
     if (last != 0 && c == last) { if (c->next_chunk != 0) walk_ok = 0; c = 0; } else c = c->next_chunk;
@@ -291,7 +299,7 @@ static _Bool j_conserved(struct node* head, struct node* last) {
 }
 static _Bool td_list_empty(void) { return xv_td.first_retired_node == 0 && xv_td.prev_retired_node == &xv_td.first_retired_node; }
 static void havoc_heap(void) {
-  for (int i = 0; i < NN; ++i) { pool[i].next = (struct node*)nondet_uptr(); pool[i].next_chunk = (struct node*)nondet_uptr(); pool[i].stamp = nondet_size(); pool[i].deleted = 0; }
+  for (int i = 0; i < NN; ++i) { pool[i].next = junk(); pool[i].next_chunk = junk(); pool[i].stamp = nondet_size(); pool[i].deleted = 0; }
   g_n[0] = nondet_uint(); g_n[1] = nondet_uint(); g_n[2] = nondet_uint(); in_j = nondet_uint();
   XV_ASSUME(g_n[0] <= 2 && g_n[1] <= 2 && g_n[2] <= 2 && in_j < 6);
 }
@@ -309,7 +317,7 @@ void h_global(void) {
   j_used = j_in_chain(); j0 = pool[in_j]; restart_seen = 0;
   unsigned re = xv_td.region_entries; _Bool nothing = (g_n[0] + g_n[1] + g_n[2] == 0);
   sg_process_global_nodes(&xv_td);
-  XV_OBL("stamp.free.below_tail", !del_bad_stamp);
+  XV_OBL("stamp.free.below_tail", !del_bad_stamp && !del_poison);
   XV_OBL("stamp.conserve", q_add_n <= 1 && !q_add_bad && q_steal_n == 1);
   XV_OBL("stamp.conserve", j_conserved(q_add_n ? q_add_first : 0, q_add_last));       /* deleted once, or kept once in what was handed back */
   XV_OBL("stamp.conserve", td_list_empty() && (xv_td.number_of_retired_nodes == 0 || (!restart_seen && nl == 0)));
